@@ -57,7 +57,7 @@ def aigpOk : Nat → Bytes → Bool
       3 ≤ l && l - 3 ≤ rest.length && aigpOk fuel (rest.drop (l - 3))
   | _, _ => false
 
-/-- is `data` a syntactically valid value for attribute `code` on a session with 2-/4-octet AS numbers? -/
+/-- is `data` a syntactically valid value for attribute `code` on a session with 2- or 4-octet AS numbers? -/
 def validValue (two : Bool) (code : Nat) (data : Bytes) : Bool :=
   let len := data.length
   if code = 1 then len == 1 && data.all (· ≤ 2)
